@@ -118,7 +118,9 @@ use serde_json::Value;
 pub fn from_strategy<S: Strategy>(strat: &S, data: &[u8]) -> Option<S::Value> {
     // PassThrough yields zeros once the bytes are used up, and rand's rejection sampling never
     // terminates on an all-zero stream: append a fixed pseudo-random tail (a constant, not derived
-    // from the input, so the mapping bytes -> case stays monotone in the input prefix).
+    // from the input, so the mapping bytes -> case stays monotone in the input prefix).  Limit: every
+    // RNG fork (prop_flat_map, prop_perturb, ...) halves the remaining stream, so strategies that fork per
+    // element need a hand-written decoder instead (fz_rel histories).
     static TAIL: std::sync::OnceLock<Vec<u8>> = std::sync::OnceLock::new();
     let tail = TAIL.get_or_init(|| {
         let mut r = crate::oracle::int::SplitMix(0x7a11_7a11);
@@ -157,8 +159,8 @@ pub fn fuzz_one(target: &str, data: &[u8]) -> Option<(&'static str, Value, Resul
             MontCase::Mg64(c) => eval("mg64", Some(c), c07::check_mg64),
         },
         "fz_rel" => match sel % 8 {
-            0..=3 => eval("history", from_strategy(&c11::history_strategy(48), rest), c11::check_history),
-            4 | 5 => eval("final", from_strategy(&c11::final_strategy(), rest), c11::check_final),
+            // histories: hand-written decoder (the strategy forks its RNG per element, see c11::history_from_bytes)
+            0..=5 => eval("history", c11::history_from_bytes(rest), c11::check_history),
             6 => eval("combine", from_strategy(&c11::combine_strategy(), rest), c11::check_combine),
             _ => eval("pack", from_strategy(&c11::pack_strategy(), rest), c11::check_pack),
         },
